@@ -685,6 +685,10 @@ def analyse(steps, trailing_notes=()):
                 w = want[len(got)]
                 rule = "lost"
                 V.append(Violation("C01", rule, "reliable bunch #%d on ch %d (%d bits) never delivered after the drain" % (len(got), ch, w["bits"]), w["step"]))
+                # C02, judged without the peer's own bookkeeping: the packet whose id `send` returned for this bunch was reported ACK, yet the peer's
+                # application never saw the bunch - the peer cannot have accepted that packet with all its bunches
+                if w.get("pid") is not None and any(pid == w["pid"] and ack for pid, ack, _ in status.get(src, [])):
+                    V.append(Violation("C02", "ack-lost", "packet %s reported ACK but its reliable bunch #%d on ch %d was never handed to the peer application" % (w["pid"], len(got), ch), w["step"]))
                 if any(x["flags"] & 2 for x in want):
                     V.append(Violation("C10", "lost", "reliable data of a closed channel %d never delivered" % ch, w["step"]))
                 if w["flags"] & 64:
